@@ -975,6 +975,7 @@ func (f *Frugal) IsUnion(t *Type) bool {
 
 // IsEnum indicates if the underlying Type is an enum.
 func (f *Frugal) IsEnum(t *Type) bool {
+	t = f.UnderlyingType(t) // follow typedefs of enums
 	include := t.IncludeName()
 	containingFrugal := f
 	if include != "" {
